@@ -385,7 +385,7 @@ def analyze(ctx, want):
             # predicate's paths are split by the kind they are for, and each part is compared with that operator's denotation
             clo = unwrap_ok(r)
             negated = neg[-1][1] if neg else None
-            tt_all = eval_closure(F, clo) if clo[0] == "closure" else []
+            tt_all = eval_closure(F, clo) if clo[0] in ("closure", "fn") else []
             kconds = [c_ for cs_, r_ in tt_all for c_, o_ in cs_ if c_[0] == "discr" and "kind" in S.vstr(c_)]
             if not kconds:
                 ob("C08.a", "binary-op:dispatch-on-kind", False, "Ok path without a test of the operator kind", fn.loc())
@@ -414,7 +414,7 @@ def analyze(ctx, want):
         kname = dict((dv, n) for n, dv in c[2]).get(o)
         negated = neg[-1][1] if neg else None
         clo = unwrap_ok(r)
-        if clo[0] != "closure":
+        if clo[0] not in ("closure", "fn"):      # (a captureless closure may be written as a fn item)
             ob("C08.b", "binary-op:%s:is-a-closure" % kname, False, "returns %s" % S.vstr(r), fn.loc())
             continue
         tt_paths = eval_closure(F, clo)
@@ -616,7 +616,7 @@ def analyze(ctx, want):
             continue
         if quirk:
             ob("C08.b", "literal:dot-quirk-only-for-the-verbatim-kind", kinds is None or kinds == {"Verbatim"}, "kinds on the wildcard path: %s" % (sorted(kinds) if kinds is not None else "test form not decoded"), fn.loc())
-        if clo[0] != "closure":
+        if clo[0] not in ("closure", "fn"):      # (a captureless closure may be written as a fn item)
             ob("C08.b", "literal:is-a-closure", False, "returns %s" % S.vstr(r)[:80], fn.loc())
             continue
         atoms, table = truth_table(eval_closure(F, clo), lambda v: "c" if S.vstr(v).endswith(".c") else None)
@@ -649,7 +649,7 @@ def analyze(ctx, want):
             r = p.end[1]
             if v == "Dot":
                 clo = unwrap_ok(r)
-                atoms, table = truth_table(eval_closure(F, clo), lambda x: None) if clo[0] == "closure" else (None, "not a closure")
+                atoms, table = truth_table(eval_closure(F, clo), lambda x: None) if clo[0] in ("closure", "fn") else (None, "not a closure")
                 ok, det = compare(atoms, table, lambda e: not e["nl"] and not e["cr"], {"nl": "'\\n' Eq ch", "cr": "'\\r' Eq ch"}) if atoms is not None else (False, table)
                 ob("C08.b", "ast:dot-matches-all-but-newline-and-cr", ok, det, fn.loc())
             elif v in ("Literal", "ClassUnicode", "ClassPerl", "ClassBracketed"):
@@ -801,7 +801,7 @@ def analyze(ctx, want):
         meth = UNICODE_NAMED.get(lit) if kind == "Named" else UNICODE_ONE_LETTER.get(lit)
         clo = unwrap_ok(r)
         key = "unicode:%s:%s:negated=%s" % (kind, lit, neg)
-        if clo[0] != "closure":
+        if clo[0] not in ("closure", "fn"):      # (a captureless closure may be written as a fn item)
             ob("C08.d", key, False, "returns %s" % S.vstr(r)[:80], fn.loc())
             continue
         atoms, table = truth_table(eval_closure(F, clo), lambda v: None)
